@@ -60,3 +60,7 @@ def passes(cov, mut, copies):
     """C15: at least the configured minimum number of reads, and the per-copy fraction threshold."""
     return (support(cov, mut) >= cov.profile.min_coverage
             and support(cov, mut) * copies >= depth_at(cov, mut) * cov.profile.threshold)
+
+
+def single_depth(cov, cn, pos, d):
+    return (0.0 if copies_at(cn, pos) == 0 else (d if d >= 1 else 1) / copies_at(cn, pos))
